@@ -370,7 +370,7 @@ theorem parseNewlineOption_spec (hw : T.WFInv) (buf : Buf) (skip : Bool) (st : P
     Post (parseNewlineOption T buf skip st) (fun r st' =>
       BL T st.latex.length r ∧ st' = { st with diags := st'.diags }) := by
   simp only [parseNewlineOption]
-  have hb1 : BL T st.latex.length (if skip = true then (match lookAhead buf with
+  have hb1 : BL T st.latex.length (if skip = true then (match lookAheadSL buf with
                             | some t => if txtIsNV t "[" = true then skipSpace buf else buf
                             | none => buf) else buf) := by
     split
@@ -380,7 +380,7 @@ theorem parseNewlineOption_spec (hw : T.WFInv) (buf : Buf) (skip : Bool) (st : P
         · exact hb
       · exact hb
     · exact hb
-  generalize (if skip = true then (match lookAhead buf with
+  generalize (if skip = true then (match lookAheadSL buf with
                             | some t => if txtIsNV t "[" = true then skipSpace buf else buf
                             | none => buf) else buf) = buf1 at hb1
   cases buf1 with
